@@ -159,9 +159,16 @@ impl Carrier {
                     ConfirmationStatus::Rejected(errors::UNKNOWN_JSON_RPC_EXCEPTION)
                 }
             },
-            // Connection refused, bitcoind is down. Or the connection was lost while the reply was on its way (a reply that
-            // ends in the middle is reported as a parsing error): that is not a verdict on the transaction either.
-            Err(JsonRpcError(TransportError(_))) | Err(JsonRpcError(JsonError(_))) => {
+            // Connection refused, bitcoind is down.
+            Err(JsonRpcError(TransportError(_))) => {
+                log::error!("Connection lost with bitcoind, retrying request when possible");
+                self.flag_bitcoind_unreachable();
+                self.send_transaction(tx)
+            }
+            // The connection was lost while the reply was on its way (a reply that ends in the middle is reported as a parsing
+            // error that hits the end of the input): that is not a verdict on the transaction either. A complete reply that
+            // cannot be parsed is another matter, asking again would bring the same reply.
+            Err(JsonRpcError(JsonError(ref e))) if e.is_eof() => {
                 log::error!("Connection lost with bitcoind, retrying request when possible");
                 self.flag_bitcoind_unreachable();
                 self.send_transaction(tx)
@@ -205,8 +212,14 @@ impl Carrier {
                     false
                 }
             },
-            // Connection refused, bitcoind is down (or the connection was lost while the reply was on its way).
-            Err(JsonRpcError(TransportError(_))) | Err(JsonRpcError(JsonError(_))) => {
+            // Connection refused, bitcoind is down.
+            Err(JsonRpcError(TransportError(_))) => {
+                log::error!("Connection lost with bitcoind, retrying request when possible");
+                self.flag_bitcoind_unreachable();
+                self.in_mempool(txid)
+            }
+            // The connection was lost while the reply was on its way (see `send_transaction`).
+            Err(JsonRpcError(JsonError(ref e))) if e.is_eof() => {
                 log::error!("Connection lost with bitcoind, retrying request when possible");
                 self.flag_bitcoind_unreachable();
                 self.in_mempool(txid)
